@@ -345,3 +345,16 @@ Proof. exact ScannerOverlapProofs.next_m4_complete_file. Qed.
 Print Assumptions C10_M4_complete_file.
 
 (* No statement of C10 is open. *)
+
+(* ---- leaf functions regenerated from the source on every run (tools/gen_leaf.py -> gen/Leaf.v): agreement with the hand-written model ---- *)
+(* the scanner's default range is Headers::code_range: the same agreement, stated where the scanner property can see it *)
+From PV.Model Require Headers Wrap.
+From PV.gen Require Leaf.
+From PV.Proofs Require LeafWrap.
+Theorem C10_leaf_code_range : forall f m,
+  (if Headers.f_64 f then Leaf.L_pe64_headers_Headers_code_range else Leaf.L_pe32_headers_Headers_code_range) (Wrap.h_soc f m) (Wrap.h_boc f m)
+    = Wrap.op_code_range f m /\
+  (if Headers.f_64 f then Leaf.L_pe64_headers_Headers_code_range_ok else Leaf.L_pe32_headers_Headers_code_range_ok) (Wrap.h_soc f m) (Wrap.h_boc f m)
+    = true.
+Proof. exact LeafWrap.code_range_agrees. Qed.
+Print Assumptions C10_leaf_code_range.
